@@ -300,11 +300,11 @@ func (c *ClusterInfo) Sync(cluster *proxyv1alpha1.UpstreamCluster) error {
 
 	klog.V(5).Infof("[cluster info] syncing cluster info, name=%q", c.Cluster)
 
-	if cluster.Annotations != nil {
-		if err := c.syncFeatureGate(cluster.Annotations); err != nil {
-			// we should never get here because there is validating admission
-			return err
-		}
+	// feature gates are synced even if the annotations are removed, otherwise the
+	// gates of the previous object would stay switched on
+	if err := c.syncFeatureGate(cluster.Annotations); err != nil {
+		// we should never get here because there is validating admission
+		return err
 	}
 
 	// sync flow control type
@@ -567,7 +567,14 @@ func (c *ClusterInfo) syncFeatureGate(annotations map[string]string) error {
 		}
 		return nil
 	}
-	return c.featuregate.Set(featuregate)
+	// start from the defaults: Set() merges into the current gates, so a gate
+	// that is no longer listed in the annotation would keep its old value
+	newFeatureGate := features.DefaultMutableFeatureGate.DeepCopy()
+	if err := newFeatureGate.Set(featuregate); err != nil {
+		return err
+	}
+	c.featuregate = newFeatureGate
+	return nil
 }
 
 // upstream policy    enabled
